@@ -482,8 +482,106 @@ pub fn monowalk<'tcx>(tcx: TyCtxt<'tcx>) -> J {
             unrooted.push(J::obj(vec![("path", J::s(def_path(tcx, did))), ("reason", J::s("no instantiation over the default numeric types and the provided contexts satisfies its predicates"))]));
         }
     }
-    while let Some(i) = w.queue.pop_front() {
-        w.visit(i);
+    // phase 2: a method of an impl for a generic local type that the crate itself instantiates (a private generic iterator handed out
+    // as `impl Iterator`) is entered by API users through that instantiation although no local body calls it: root it at the
+    // instantiations of the type the walk has met as the Self type of a visited method
+    loop {
+        while let Some(i) = w.queue.pop_front() {
+            w.visit(i);
+        }
+        let mut self_tys: Vec<Ty<'tcx>> = vec![];
+        for i in w.nodes.keys() {
+            let d = i.def_id();
+            if !d.is_local() || !matches!(tcx.def_kind(d), DefKind::AssocFn) {
+                continue;
+            }
+            if let Some(imp) = tcx.impl_of_assoc(d) {
+                let n = tcx.generics_of(imp).count();
+                if i.args.len() < n {
+                    continue;
+                }
+                let impl_args = tcx.mk_args(&i.args[..n]);
+                let st = tcx.type_of(imp).instantiate(tcx, impl_args).skip_norm_wip();
+                if let ty::Adt(ad, _) = st.kind() {
+                    if ad.did().is_local() && !self_tys.contains(&st) {
+                        self_tys.push(st);
+                    }
+                }
+            }
+        }
+        let mut added = false;
+        for id in tcx.hir_crate_items(()).definitions() {
+            let imp = id.to_def_id();
+            if !matches!(tcx.def_kind(imp), DefKind::Impl { .. }) {
+                continue;
+            }
+            let ist = tcx.type_of(imp).instantiate_identity().skip_norm_wip();
+            let (idef, iargs) = match ist.kind() {
+                ty::Adt(a, ga) => (a.did(), *ga),
+                _ => continue,
+            };
+            for st in &self_tys {
+                let (cdef, cargs) = match st.kind() {
+                    ty::Adt(a, ga) => (a.did(), *ga),
+                    _ => continue,
+                };
+                if cdef != idef || cargs.len() != iargs.len() {
+                    continue;
+                }
+                let mut bind: HashMap<u32, ty::GenericArg<'tcx>> = HashMap::new();
+                let mut ok = true;
+                for (ia, ca) in iargs.iter().zip(cargs.iter()) {
+                    if let Some(t) = ia.as_type() {
+                        if let ty::Param(p) = t.kind() {
+                            bind.insert(p.index, ca);
+                        } else if ia != ca {
+                            ok = false;
+                        }
+                    } else if ia.as_const().is_some() && ia != ca {
+                        ok = false;
+                    }
+                }
+                if !ok {
+                    continue;
+                }
+                for item in tcx.associated_items(imp).in_definition_order() {
+                    if !item.is_fn() {
+                        continue;
+                    }
+                    let fd = item.def_id;
+                    if !fd.is_local() {
+                        continue;
+                    }
+                    let fg = tcx.generics_of(fd);
+                    if fg.own_params.iter().any(|p| !matches!(p.kind, ty::GenericParamDefKind::Lifetime)) {
+                        continue;
+                    }
+                    let mut complete = true;
+                    let args = GenericArgs::for_item(tcx, fd, |param, _| match param.kind {
+                        ty::GenericParamDefKind::Lifetime => tcx.lifetimes.re_erased.into(),
+                        _ => match bind.get(&param.index) {
+                            Some(a) => *a,
+                            None => {
+                                complete = false;
+                                dnt_ty.into()
+                            }
+                        },
+                    });
+                    if !complete || tcx.instantiate_and_check_impossible_predicates((fd, args)) {
+                        continue;
+                    }
+                    let inst = Instance::new_raw(fd, args);
+                    if !w.nodes.contains_key(&inst) {
+                        roots.push(J::obj(vec![("path", J::s(def_path(tcx, fd))), ("inst", J::s(inst_name(tcx, inst))), ("via", J::s("impl of a generic type the crate instantiates"))]));
+                        w.enqueue(inst);
+                        added = true;
+                    }
+                }
+            }
+        }
+        if !added {
+            break;
+        }
     }
     // per local site: union over instantiations
     let mut memo = HashMap::new();
